@@ -181,15 +181,15 @@ end Abra.VM
 namespace Abra.Compile
 open Abra.Sem Abra.VM
 
-/-- **Generated F0 code meets the contracts**: if the program is DepthSafe and its reference evaluation finishes
-    (with a value or a documented runtime error), then no run of the compiled code, with any step bound, ends in
-    an internal fault. -/
+/-- **Generated F0 code meets the contracts**: if the reference evaluation of an F0 program finishes (with a value or a
+    documented runtime error), then no run of the compiled code, with any step bound, ends in an internal fault.
+    (Until 0c43abd this needed DepthSafe: D21.) -/
 theorem C01_compile_safe_F0 (ss : Stmts) (code : Program) (fuel : Nat)
-    (hc : compileMain ss = some code) (hd : depthSafeSs 0 ss = true)
+    (hc : compileMain ss = some code)
     (hfin : (∃ v h out, Sem.run fuel ⟨[], [], ss⟩ = .done v h out) ∨ (∃ k out, Sem.run fuel ⟨[], [], ss⟩ = .error k out)) :
     ∀ (m : Nat) (f : Fault), VM.run code m State.init ≠ .fault f := by
   intro m f hfault
-  have hsim := C02_compile_correct_F0_program ss code fuel hc hd
+  have hsim := C02_compile_correct_F0_program ss code fuel hc
   rcases hfin with ⟨v, h, out, hr⟩ | ⟨k, out, hr⟩
   · rw [hr] at hsim
     obtain ⟨n, s, hrun, _, _⟩ := hsim
@@ -202,8 +202,8 @@ theorem C01_compile_safe_F0 (ss : Stmts) (code : Program) (fuel : Nat)
     · rw [h] at hfault; cases hfault
     · rw [h] at hfault; cases hfault
 
-/-- D21 as a fault: the operand left behind by `break` has the wrong tag for the instruction that finally
-    consumes it.  `let r = 100 + { while true { let t = (true, …break…) }; 5 }` in the F0 instruction set:
+/-- HISTORICAL (the translation scheme before 0c43abd; `compileMain` no longer produces such code). D21 as a fault:
+    the operand left behind by `break` has the wrong tag for the instruction that finally consumes it.  `let r = 100 + { while true { let t = (true, …break…) }; 5 }` in the F0 instruction set:
     a bool is pushed, the loop is left, `AddInt` finds `[100, true, 5]`. -/
 def d21FaultProg : Program :=
   [.pushNil 0, .pushInt 100, .pushBool true, .jump 4, .pushInt 5, .intOp .add .top .top .top, .stop]
@@ -218,8 +218,13 @@ example : Pre (.intOp .add .top .top .top) { State.init with stack := [.int 1, .
 example : Pre (.ret 1) { State.init with stack := [.int 7, .int 5, .int 9], base := 2, frames := [{ pc := 3, base := 0, nargs := 1 }] } :=
   ⟨by simp, by decide, by decide, _, _, rfl, by decide⟩
 
-example : (compileMain loopExample).isSome = true ∧ depthSafeSs 0 loopExample = true ∧
+example : (compileMain loopExample).isSome = true ∧
     semOut (Sem.run 100 ⟨[], [], loopExample⟩) = some ["8\n"] := by
+  refine ⟨by decide, by decide +kernel⟩
+
+/-- the former D21 witness satisfies the hypotheses: accepted by the compile model, finishes in the reference -/
+example : (compileMain d21Witness).isSome = true ∧ depthSafeSs 0 d21Witness = false ∧
+    semOut (Sem.run 100 ⟨[], [], d21Witness⟩) = some ["105\n"] := by
   refine ⟨by decide, by decide, by decide +kernel⟩
 
 end Abra.Compile
